@@ -185,6 +185,34 @@ func RunCheck(spec *PropSpec, tier string, seed int64, nworkers int) int {
 		for _, w := range res.Samples {
 			addCase("sample", w)
 		}
+		if job.NoNative {
+			// no native counterpart of the modelled environment: report on the engine's verdict alone
+			for _, w := range res.Violations {
+				if w.NoModel || job.ExpectFail {
+					continue
+				}
+				violations++
+				p := writeReplay(spec.ID, job, w, "engine-only (modelled environment)")
+				fmt.Printf("VIOLATION property=%s replay=%s\n", spec.ID, p)
+				fmt.Printf("  harness=%s n=%d engine=%q (engine-only: the file system / crash point is a model) input=%v\n", job.Fn, job.N, w.Outcome, w.Pretty)
+				exit = 1
+			}
+			for _, id := range kids {
+				f, listed := findings[id]
+				if listed && f.Status == "known" && (f.Property == spec.ID || contains(f.Also, spec.ID)) {
+					if !knownPrinted[id] {
+						knownPrinted[id] = true
+						fmt.Printf("KNOWN-FINDING: property=%s %s: %s\n", spec.ID, id, f.What)
+					}
+				} else if len(res.Knowns[id]) > 0 {
+					violations++
+					p := writeReplay(spec.ID, job, res.Knowns[id][0], "engine-only")
+					fmt.Printf("VIOLATION property=%s replay=%s\n  finding class %q is not listed as known\n", spec.ID, p, id)
+					exit = 1
+				}
+			}
+			cases, kinds, wits = nil, nil, nil
+		}
 		nres, nerr := l.NativeRun(cases)
 		if nerr != nil {
 			engineProblems = append(engineProblems, "native replay: "+firstLine(nerr.Error()))
